@@ -512,3 +512,32 @@ Section Update.
     - rewrite keys_pr. unfold pr_pred. rewrite H1, H2, H3. reflexivity.
   Qed.
 End Update.
+
+(* ---------- Features.merge_options ---------- *)
+Lemma merge_cases_l : forall child s,
+  (exists e, o_merge child s = (s, Some e)) \/ o_merge child s = o_update child None s.
+Proof.
+  intros child s. unfold o_merge. destruct (default_protected s); [|left; eexists; reflexivity].
+  destruct (existsb _ _); [left; eexists; reflexivity | right; reflexivity].
+Qed.
+
+(* a key that parent and child both carry with different values, and that is not protected, is an error *)
+Lemma merge_value_conflict_l : forall child s pk k v k' v',
+  default_protected s = Some pk -> In (k, v) (o_items child) -> In (k', v') (o_items s) ->
+  key_eqb k k' = true -> kmem k' pk = false -> py_eq v v' = false -> o_merge child s = (s, Some EValue).
+Proof.
+  intros child s pk k v k' v' Hp Hc Hs Hk Hn Hv. unfold o_merge. rewrite Hp.
+  assert (H : existsb (fun c => existsb (fun p => key_eqb (fst c) (fst p) && negb (kmem (fst p) pk)
+                                  && negb (py_eq (snd c) (snd p))) (o_items s)) (o_items child) = true).
+  { apply existsb_exists. exists (k, v). split; [exact Hc|]. apply existsb_exists. exists (k', v'). split; [exact Hs|].
+    cbn [fst snd]. rewrite Hk, Hn, Hv. reflexivity. }
+  rewrite H. reflexivity.
+Qed.
+
+(* protected keys of the child never reach the parent through merge_options either *)
+Lemma merge_protected_l : forall child s pk k, default_protected s = Some pk -> kmem k pk = true ->
+  dget k (og (fst (o_merge child s))) = dget k (og s) /\ dget k (oc (fst (o_merge child s))) = dget k (oc s).
+Proof.
+  intros child s pk k Hp Hk. destruct (merge_cases_l child s) as [(e & ->) | ->]; [split; reflexivity|].
+  apply (update_protected child None s pk); [exact Hp | exact Hk].
+Qed.
